@@ -159,6 +159,7 @@ pub fn c36_or_switches() {
 //# kind: bounded(hidden lists of 0 or 1 element per side; the second element's index symbolic)
 //# fns: settings::Settings::or
 //# assume: HashSet behaves as a finite set (shim)
+//# cbmc: --unwindset memcmp.0:40
 //# timeout: 900
 #[cfg_attr(kani, kani::proof)]
 #[cfg_attr(kani, kani::unwind(12))]
